@@ -145,19 +145,22 @@ class Model:
             return const_str(e.slice), "item"
         return None
 
-    def is_options(self, e: ast.expr) -> bool:
-        """`e` denotes the caller's options dict (the **kwargs parameter, a local alias or a copy of it)."""
-        seen = 0
-        while seen < 8:
-            seen += 1
+    def is_options(self, e: ast.expr, _seen: frozenset = frozenset()) -> bool:
+        """`e` denotes the caller's options dict (the **kwargs parameter, a local alias or a - possibly filtered - copy of it)."""
+        for _ in range(8):
             if isinstance(e, ast.Name):
-                if e.id == self.kw and len([b for b in self.binds.get(e.id, []) if not self._merge_update(b)]) == 1:
+                if e.id in _seen:
+                    return True  # `x = dict(x)`: builds on the earlier binding
+                bs = [b for b in self.binds.get(e.id, []) if not self._merge_update(b)]
+                if e.id == self.kw and len(bs) == 1 and bs[0].kind == "param":
                     return True
-                v = self.single_value(e.id)
-                if v is None:
+                if not bs or any(b.kind != "assign" or b.value is None for b in bs):
                     return False
-                e = v
-                continue
+                if len(bs) == 1:
+                    _seen, e = _seen | {e.id}, bs[0].value
+                    continue
+                seen2 = _seen | {e.id}
+                return all(self.is_options(b.value, seen2) for b in bs) and any(not self._mentions(b.value, e.id) for b in bs)
             if isinstance(e, ast.Call) and isinstance(e.func, ast.Name) and e.func.id == "dict" and len(e.args) == 1 and not e.keywords:
                 e = e.args[0]
                 continue
@@ -172,6 +175,10 @@ class Model:
                 continue
             return False
         return False
+
+    @staticmethod
+    def _mentions(e: ast.AST, name: str) -> bool:
+        return any(isinstance(x, ast.Name) and x.id == name for x in ast.walk(e))
 
     @staticmethod
     def _merge_update(b: "Binding") -> bool:
